@@ -64,7 +64,7 @@ def read_log(path):
     return [Call(l) for l in open(path) if l.strip()]
 
 
-def run_shim(shim, root, cmd, log=None, snap=None, kill=None, fail=None, timeout=120, inp=None, snap_end=None):
+def run_shim(shim, root, cmd, log=None, snap=None, kill=None, fail=None, timeout=120, inp=None, snap_end=None, env=None, short=None):
     """fail = (k, errno[, count]).  Returns (rc, output)."""
     a = [shim, "-r", root]
     if log:
@@ -77,10 +77,12 @@ def run_shim(shim, root, cmd, log=None, snap=None, kill=None, fail=None, timeout
         a += ["-S", snap_end]
     if kill is not None:
         a += ["-k", str(kill)]
+    if short is not None:
+        a += ["-w", str(short)]
     if fail is not None:
         for f in (fail if isinstance(fail, list) else [fail]):
             a += ["-f", ":".join(str(x) for x in f)]
-    return vlib.sh(a + ["--"] + cmd, timeout=timeout, inp=inp)
+    return vlib.sh(a + ["--"] + cmd, timeout=timeout, inp=inp, env=env)
 
 
 def tree(root):
